@@ -812,6 +812,13 @@ def run_c07(scn) -> Result:
                     res.count("probe:directory_rewritten_in_place_and_reloaded")
                 shutil.rmtree(os.path.dirname(directory), ignore_errors=True)
                 PW.write_dir(trees[tid], directory, style())
+                if lseed % 2:
+                    # the files keep the timestamps of the versions they replace (a checkout at a
+                    # fixed date, `cp -p`, a coarse file clock): only their contents tell
+                    for base_dir, _dirs, files in os.walk(os.path.dirname(directory)):
+                        for name in files:
+                            os.utime(os.path.join(base_dir, name), (1500000000, 1500000000))
+                    res.count("probe:rewritten_files_keep_their_timestamps")
                 real = m_pnode.os
                 m_pnode.os = seams.listdir_permuter(lseed)
                 if hook:
